@@ -7,6 +7,7 @@
 #include <algorithm>
 #include <cstring>
 #include <iostream>
+#include <memory>
 
 #include <Vector/BLF/Exceptions.h>
 
@@ -711,7 +712,7 @@ void File::uncompressedFile2ReadWriteQueue() {
     m_uncompressedFile.seekg(-ohb.calculateHeaderSize(), std::ios_base::cur);
 
     /* create object */
-    ObjectHeaderBase * obj = (ohb.objectSize < ohb.calculateHeaderSize()) ? nullptr /* corrupt, skip the header */ : createObject(ohb.objectType);
+    std::unique_ptr<ObjectHeaderBase> obj((ohb.objectSize < ohb.calculateHeaderSize()) ? nullptr /* corrupt, skip the header */ : createObject(ohb.objectType));
     if (obj == nullptr) {
         /* in case of unknown objectType */
         /* skip at least the base header, otherwise the same header is read again forever */
@@ -726,11 +727,9 @@ void File::uncompressedFile2ReadWriteQueue() {
     }
 
     /* read object */
-    obj->read(m_uncompressedFile);
-    if (!m_uncompressedFile.good()) {
-        delete obj;
+    obj->read(m_uncompressedFile); // the object is released if this throws (e.g. std::bad_alloc for an absurd length)
+    if (!m_uncompressedFile.good())
         throw Exception("File::uncompressedFile2ReadWriteQueue(): Read beyond end of file.");
-    }
 
     if (tmp!=0) {
         m_uncompressedFile.seekg(tmp);
@@ -740,7 +739,7 @@ void File::uncompressedFile2ReadWriteQueue() {
     const bool countObject = (obj->objectType != ObjectType::Unknown115);
 
     /* push data into readWriteQueue */
-    m_readWriteQueue.write(obj);
+    m_readWriteQueue.write(obj.release());
 
     /* statistics */
     if (countObject)
